@@ -600,14 +600,23 @@ func (s *sim) compareOp(o *txOp, tc *txCtx, m, r []string, lenient bool) bool {
 		return true
 	}
 	if o.kind == opCursor {
+		if seekIntoBuckets(o, m, r) {
+			// The interface does not say whether Seek past the last key
+			// continues into the nested buckets; ffldb does or does not
+			// depending on the layer the bucket entries live in.  Not judged.
+			s.r.Probe("seek_past_keys_into_buckets_not_judged")
+			return false // cursors diverged: abandon the transaction on both sides
+		}
 		if key := s.cursorDeviationKey(o, m, r); key != "" {
 			s.r.Violate(prop, "cursor-order", key, "op %s: real=%v model=%v", o, r, m)
-			return true
+			// listed finding: the cursors (and, with Delete steps, the
+			// transactions) have diverged; abandon the transaction on both sides
+			return false
 		}
 	}
 	if s.nilValueInvolved(o) {
 		s.r.Violate(prop, "refinement", "nil-value-put-invisible", "op %s: real=%v model=%v (a key was Put with a nil value)", o, r, m)
-		return true
+		panic(stopExec{}) // listed finding: the states have diverged for good
 	}
 	s.violate("refinement", "", "op %s: real=%v model=%v", o, r, m)
 	return true
@@ -618,6 +627,35 @@ func at(l []string, i int) string {
 		return l[i]
 	}
 	return "<none>"
+}
+
+// seekIntoBuckets: the first differing step is a Seek, or a Next after a Seek,
+// for which the model (keys, then nested buckets) landed on a nested bucket
+// and the real cursor reported "no pair".
+func seekIntoBuckets(o *txOp, m, r []string) bool {
+	i := 0
+	for i < len(m) && i < len(r) && m[i] == r[i] {
+		i++
+	}
+	if i >= len(o.cur) || i >= len(m) || i >= len(r) {
+		return false
+	}
+	// model: a nested bucket; real: "no pair" or some other nested bucket
+	if !(strings.HasSuffix(m[i], "nil") && (strings.HasSuffix(r[i], ":false") || strings.HasSuffix(r[i], "nil"))) {
+		return false
+	}
+	// positioned by a Seek (possibly followed by Next steps)?
+	for j := i; j >= 0; j-- {
+		switch o.cur[j].kind {
+		case cSeek:
+			return true
+		case cNext, cDelete:
+			continue
+		default:
+			return false
+		}
+	}
+	return false
 }
 
 // cursorDeviationKey classifies a cursor mismatch: if the first differing step
@@ -641,17 +679,19 @@ func (s *sim) cursorDeviationKey(o *txOp, m, r []string) string {
 		}
 		return 0
 	}
-	cur := dir(o.cur[i].kind)
 	if o.cur[i].kind != cNext && o.cur[i].kind != cPrev {
 		return ""
 	}
-	// direction of the last real movement before step i
+	// a reversal anywhere between the last absolute positioning and step i
+	// leaves the two merged iterators inconsistent
+	first := dir(o.cur[i].kind)
 	for j := i - 1; j >= 0; j-- {
-		if d := dir(o.cur[j].kind); d != 0 {
-			if d != cur {
-				return "cursor-direction-reversal"
-			}
-			return ""
+		d := dir(o.cur[j].kind)
+		if d != 0 && d != first {
+			return "cursor-direction-reversal"
+		}
+		if k := o.cur[j].kind; k == cFirst || k == cLast || k == cSeek {
+			break
 		}
 	}
 	return ""
